@@ -250,12 +250,16 @@ func (ex *Exec) assert(fr *frame, site ssa.Instruction, t *sym.Term, msg string)
 		}
 	} else {
 		r, _ = ex.solver.Check(ex.ctx.BNot(t), nil)
+		if r == sym.Unknown {
+			r = ex.checkFresh(ex.ctx.BNot(t))
+		}
 	}
 	switch r {
 	case sym.Unsat:
 		ex.assertPC(t)
 		return
 	case sym.Unknown:
+		ex.dumpQuery(ex.ctx.BNot(t), "assert")
 		ex.inconclusive("solver unknown on assertion '" + msg + "': " + ex.solver.LastErr)
 	}
 	// counterexample: pin it and stop the path
